@@ -5,7 +5,7 @@
 //! the worker is restarted after it.
 
 use crate::emulator::Core;
-use crate::mem::{memory_read_byte, memory_read_word, memory_write_byte, memory_write_word, MemoryAreas};
+use crate::mem::{jit_push_word, jit_read_byte, jit_read_word, jit_write_byte, jit_write_word, memory_push_word, memory_read_byte, memory_read_word, memory_write_byte, memory_write_word, MemoryAreas};
 use crate::rt::{hash_words, Ctx, Rng};
 use crate::support;
 use std::collections::HashSet;
@@ -46,7 +46,11 @@ fn region_id(a: u16) -> u64 {
 }
 
 const REGION_NAMES: [&str; 9] = ["rom0", "romN", "vram", "cartram", "wram", "echo", "oam", "io", "hram-ie"];
-const KIND_NAMES: [&str; 4] = ["read", "write", "word-read", "word-write"];
+// kinds 4-7: the stack form of the word write, and the entry points translated code uses for
+// all of its bus accesses (whole argument registers, whose upper bits hold whatever the block
+// left there - here: set); 8 and 9 are the device storm and the loader
+const KIND_NAMES: [&str; 8] = ["read", "write", "word-read", "word-write", "push-word", "translated-code-entry:read", "translated-code-entry:write", "translated-code-entry:push-word"];
+const DIRTY: u64 = 0xdead_beef_7fff_0000;
 
 struct Runner<'a> {
   ctx: &'a mut Ctx,
@@ -74,7 +78,17 @@ impl<'a> Runner<'a> {
       2 => {
         std::hint::black_box(memory_read_word(mp, addr));
       }
-      _ => memory_write_word(mp, addr, ((value as u16) << 8) | (!value) as u16),
+      3 => memory_write_word(mp, addr, ((value as u16) << 8) | (!value) as u16),
+      4 => memory_push_word(mp, addr, ((value as u16) << 8) | (!value) as u16),
+      5 => {
+        std::hint::black_box(jit_read_byte(mp, DIRTY | addr as u64));
+        std::hint::black_box(jit_read_word(mp, DIRTY | addr as u64));
+      }
+      6 => {
+        jit_write_byte(mp, DIRTY | addr as u64, DIRTY | value as u64);
+        jit_write_word(mp, DIRTY | addr as u64, DIRTY | ((value as u64) << 8) | (!value) as u64);
+      }
+      _ => jit_push_word(mp, DIRTY | addr as u64, DIRTY | ((value as u64) << 8) | (!value) as u64),
     }
     self.accesses += 1;
   }
@@ -156,9 +170,13 @@ pub fn run(ctx: &mut Ctx) {
             for &a in probes.iter() {
               r.access(&mut core, u, sub, cfg, state, a, 0, 0);
               r.access(&mut core, u, sub, cfg, state, a, 2, 0);
+              r.access(&mut core, u, sub, cfg, state, a, 5, 0);
               if a >= 0x8000 {
                 r.access(&mut core, u, sub, cfg, state, a, 1, val ^ 0x5a);
                 r.access(&mut core, u, sub, cfg, state, a, 3, val);
+                r.access(&mut core, u, sub, cfg, state, a, 4, val ^ 0x33);
+                r.access(&mut core, u, sub, cfg, state, a, 6, val ^ 0xc3);
+                r.access(&mut core, u, sub, cfg, state, a, 7, val);
               }
             }
           }
@@ -183,9 +201,13 @@ pub fn run(ctx: &mut Ctx) {
             let addr = a as u16;
             r.access(&mut core, u, sub, cfg, state, addr, 0, 0);
             r.access(&mut core, u, sub, cfg, state, addr, 2, 0);
+            r.access(&mut core, u, sub, cfg, state, addr, 5, 0);
             if addr >= 0x8000 {
               r.access(&mut core, u, sub, cfg, state, addr, 1, a as u8);
               r.access(&mut core, u, sub, cfg, state, addr, 3, a as u8);
+              r.access(&mut core, u, sub, cfg, state, addr, 4, a as u8);
+              r.access(&mut core, u, sub, cfg, state, addr, 6, a as u8);
+              r.access(&mut core, u, sub, cfg, state, addr, 7, a as u8);
             }
             a += step;
           }
@@ -197,17 +219,17 @@ pub fn run(ctx: &mut Ctx) {
           for _ in 0..2000 {
             let a = rng.below(0x8000) as u16;
             let v = rng.u8();
-            let k = if rng.chance(1, 2) { 1 } else { 3 };
+            let k = *rng.pick(&[1u64, 3, 1, 3, 4, 6, 7]);
             r.access(&mut core, u, sub, cfg, state, a, k, v);
             let p = *rng.pick(&probes);
-            r.access(&mut core, u, sub, cfg, state, p, rng.below(4), v);
+            r.access(&mut core, u, sub, cfg, state, p, rng.below(8), v);
           }
           states += 1;
         }
         r.ctx.distinct_key(hash_words(&[cfg]));
         if r.ctx.want_sample() && u % 29 == 7 {
           r.ctx.sample(&format!(
-            "cartridge type {:02X}, ROM code {:02X} ({} banks), RAM code {:02X}: loaded through the real loader; every value into each bank-register area x {} probe addresses x read/write/word-read/word-write; random register histories followed by sweeps of all 65536 addresses",
+            "cartridge type {:02X}, ROM code {:02X} ({} banks), RAM code {:02X}: loaded through the real loader; every value into each bank-register area x {} probe addresses x read/write/word-read/word-write/push-word and the five entry points of translated code (argument registers with their upper bits set); random register histories followed by sweeps of all 65536 addresses",
             ct,
             rc,
             support::rom_banks_for_code(rc),
@@ -350,7 +372,7 @@ pub fn on_crash(intent: &[u64], text: &str, status: &str, _err: &str) -> Option<
     ));
   }
   let region = REGION_NAMES[(intent[6] as usize).min(8)];
-  let kind = KIND_NAMES[(intent[5] as usize).min(3)];
+  let kind = KIND_NAMES[(intent[5] as usize).min(7)];
   Some((
     format!("C11:{}:{}:{}:{}:{}", mbc, region, kind, status.replace(' ', ""), text),
     format!(
